@@ -382,6 +382,12 @@ def run(ctx):
                     continue        # the stale-folder world: the window is the start of the run (until the old state is cleaned)
                 jobs.append((wname, [(i, variant)], None, ctx.scratch, wid, t0, chroms))
                 wid += 1
+        if wname == "w1" or (not quick and wname in ("w2", "w5", "w6")):
+            # torn files: the run is killed while a file it has opened for writing holds only the first half of its content
+            for i in range(1, n + 1):
+                if pts[i - 1][1].startswith("open-"):
+                    jobs.append((wname, [(i, "torn")], None, ctx.scratch, wid, t0, chroms))
+                    wid += 1
         if not quick and wname == "w2":
             for i in range(1, n + 1, 3):
                 jobs.append((wname, [(i, "after")], 2, ctx.scratch, wid, t0, chroms))
